@@ -182,12 +182,14 @@ func (d *OrderedDaemon) runBackgroundWorker(name string, backgroundWorker Worker
 // Use order to define in which shutdown order this particular
 // background worker is shut down (higher = earlier).
 func (d *OrderedDaemon) BackgroundWorker(name string, handler WorkerFunc, order ...int) error {
+	d.lock.Lock()
+	defer d.lock.Unlock()
+
+	// must be checked while holding the lock, otherwise a shutdown could take its snapshot of the workers
+	// between the check and the registration and the new worker would never be stopped.
 	if d.IsStopped() {
 		return ErrDaemonAlreadyStopped
 	}
-
-	d.lock.Lock()
-	defer d.lock.Unlock()
 
 	exWorker, workerExistsAlready := d.workers[name]
 	if workerExistsAlready {
